@@ -167,7 +167,9 @@ func (p *PeerActor) doTCPOp(op *Op) bool {
 	switch op.Kind {
 	case "peer_connect":
 		var dst *net.TCPAddr
-		if r := w.relayOf(op.A.Target); r != nil {
+		if r := w.realTCPRelayOf(op.A.Target); r != nil {
+			dst = r
+		} else if r := w.relayOf(op.A.Target); r != nil {
 			dst = &net.TCPAddr{IP: r.IP, Port: r.Port}
 		} else {
 			dst = &net.TCPAddr{IP: w.Gen.IP4, Port: 50000}
